@@ -41,6 +41,7 @@ type scenario struct {
 	prop string
 	also []string // further properties this directed scenario is evidence for (same signature)
 	noTimeout bool // server dispatcher configured without a request timeout (SetTimeout(0))
+	mustReject []string // requests (ids in send order) that the send API has to refuse: they must never be pushed
 	scale  int      // time unit = scale x 10 ms (default 1); directed scenarios use a coarser unit to be robust under load
 	stall  float64  // duration of the stall in time units (default 1.5)
 	sigs   []string // if set: only these kinds of log-check violations count for this scenario
@@ -91,7 +92,7 @@ var scenarios = []scenario{
 	// S9: the pump has taken the ready token of r1's completion and is about to dispatch r2 (slow queue Peek, r2 not marked
 	// pending yet); the link flaps, so Resume posts another ready token: r2 must be written once
 	{name: "c-second-ready-token", ops: []scOp{{0, "send", ""}, {0.1, "send", ""}, {0.6, "disconnect", ""}, {0.7, "connect", ""}},
-		reply: map[string]float64{"r1": 0.5, "r2": 0.3}, end: 4.0, only: []string{"queue.Peek>|3"}, prop: "C02", scale: 4, stall: 0.3,
+		reply: map[string]float64{"r1": 0.5, "r2": 0.3}, end: 4.0, only: []string{"queue.Peek>|3"}, prop: "C02", also: []string{"C10"}, scale: 4, stall: 0.3,
 		sigs: []string{"two-outstanding", "written-twice", "write-order"}},
 	// stale expiry on the client: the time-out of r1 is being handled (slow queue Pop inside the completion) while the link flaps:
 	// Resume re-arms the timer for the still pending r1, that timer expires while the pump is busy; r2, written afterwards, must
@@ -202,6 +203,12 @@ var scenarios = []scenario{
 		ops:   []scOp{{0, "send", "A"}, {0.1, "send", "A"}, {0.4, "disconnect", "A"}, {0.6, "connect", "A"}, {0.7, "send", "A"}, {0.8, "send", "A"}},
 		reply: map[string]float64{"r1": -1, "r3": 0.1, "r4": 0.1}, end: 4.0, only: []string{"queue.Push<|1"}, prop: "C01", also: []string{"C11"}, scale: 4,
 		sigs: []string{"never-concluded"}},
+	// the disconnection of A is slow right after its pending mark was cleared; a request is sent to A meanwhile: by then A's
+	// queue must be gone (the send is refused), or the pump - finding nothing pending and r1 still at the head - writes r1 again
+	{name: "s-send-during-disconnect", server: true, clients: []string{"A"},
+		ops:   []scOp{{0, "send", "A"}, {0.1, "send", "A"}, {0.4, "disconnect", "A"}, {0.55, "send", "A"}, {1.4, "connect", "A"}, {1.6, "send", "A"}},
+		reply: map[string]float64{"r1": -1, "r2": -1, "r3": -1, "r4": 0.1}, end: 4.0, only: []string{"sstate.Clear>|1"}, prop: "C11", scale: 4, stall: 0.5,
+		sigs: []string{"written-twice", "two-outstanding", "never-concluded", "write-order"}, mustReject: []string{"r3"}},
 	{name: "s-two-clients", server: true, clients: []string{"A", "B"},
 		ops:   []scOp{{0, "send", "A"}, {0.05, "send", "B"}, {0.5, "send", "A"}, {0.55, "send", "B"}},
 		reply: map[string]float64{"r1": -1, "r2": 0.1, "r3": 0.1, "r4": 0.1}, end: 3.2},
@@ -214,6 +221,18 @@ var scenarios = []scenario{
 	{name: "s-late-reply", server: true, clients: []string{"A", "B"},
 		ops:   []scOp{{0, "send", "A"}, {0.1, "send", "A"}, {0.15, "send", "B"}},
 		reply: map[string]float64{"r1": 0.92, "r2": 0.2, "r3": 0.95}, end: 3.2},
+}
+
+// gServerState: the server's pending-request state with a gate after ClearClientPendingRequest (the second step of
+// ocppj.Server.onClientDisconnected)
+type gServerState struct {
+	ocppj.ServerState
+	l *slog
+}
+
+func (g *gServerState) ClearClientPendingRequest(c string) {
+	g.ServerState.ClearClientPendingRequest(c)
+	g.l.gateAt("sstate.Clear>")
 }
 
 func burstOps() []scOp {
@@ -339,7 +358,7 @@ func runScenario(sc scenario, stallSite string, stallIdx int) schedResult {
 		if sc.noTimeout {
 			d.SetTimeout(0)
 		}
-		srv := ocppj.NewServer(fs, d, nil, core.Profile)
+		srv := ocppj.NewServer(fs, d, &gServerState{ServerState: ocppj.NewServerState(nil), l: l}, core.Profile)
 		srv.SetDialect(ocpp.V16)
 		fs.onWrite = func(c string, data []byte) {
 			if fr, err := parseFrame(data); err == nil && fr.Type == 2 {
@@ -570,6 +589,15 @@ func runScenario(sc scenario, stallSite string, stallIdx int) schedResult {
 					}
 					lastW[e.client] = e
 				}
+			}
+		}
+		for _, e := range evs {
+			if e.kind == "push" && contains(sc.mustReject, e.id) {
+				kind := "client"
+				if sc.server {
+					kind = "server"
+				}
+				viol(sc.prop, sc.name+"/accepted-while-disconnected:"+kind, fmt.Sprintf("%s: request %s for %q was accepted although the client's connection had ended (it has to be rejected immediately)", sc.name, e.id, e.client), nil)
 			}
 		}
 		checkLog(sc.name, evs, schedT, true, func(prop, sig, what string, replay interface{}) {
